@@ -85,6 +85,11 @@ def _random_jobs(rng, n):
             continue
         s = b"".join(rng.choice(wide) for _ in range(rng.randint(0, 40)))
         p = b"".join(rng.choice(wide[:6]) for _ in range(rng.randint(0, 3)))
+        if rng.random() < 0.1:
+            # separators / patterns / prefixes of bytes >= 0x80 (plain char is signed here, unsigned elsewhere)
+            p = rng.choice([b"\xff", b"\xa0", b"\x80", b"\xc3\xa4", b"\xff\xff", b"a\xff"])
+            s = p.join(b"".join(rng.choice(wide + [b"\xa0", b"\xc3"]) for _ in range(rng.randint(0, 4)))
+                       for _ in range(rng.randint(1, 5)))
         if k < 0.3:
             yield ("split", s, p)
         elif k < 0.6:
@@ -410,6 +415,9 @@ def run(tier, replay=None):
         n = nchunks(tier)
         import shutil
         work = [(tier, run_.seed, c, n, exe) for c in range(n)]
+        # every 4th chunk once more on the second compiler (clang ASan+UBSan)
+        casan = build.build_exe("casan", ["strdrv.cpp"])
+        work += [(tier, run_.seed, c, n, casan) for c in range(0, n, 4)]
         if shutil.which("valgrind"):
             work.append((tier, run_.seed, -1, n, build.build_exe("plain", ["strdrv.cpp"])))
         for part in optrun.pmap(_work, work):
